@@ -676,11 +676,10 @@ class Recfile(object):
             elif num > self.nrows:
                 num = self.nrows
         else:
-            # single element
+            # single element: negative indices count from the end; out of
+            # range values are left alone so the caller rejects them
             if num < 0:
                 num = self.nrows + num
-            elif num > (self.nrows - 1):
-                num = self.nrows - 1
 
         return num
 
